@@ -9,6 +9,7 @@ package main
 //   const NAME == VALUE             value of a package constant
 //   nocall F : G                    F (and its closures) never calls G
 //   mustcall F : G1 | G2            F (or one of its closures) calls at least one of the Gs
+//   stateless F                     F (with its closures) accesses no struct field and no package variable
 //
 // Function names are relative to the package: F, T.m; closures count for their
 // enclosing function.
@@ -324,6 +325,36 @@ func (e *Engine) runStructCheck(c *StructCheck) structResult {
 			return structResult{name, false, "function " + who + " not found"}
 		}
 		return structResult{name, false, who + " (with its closures) calls none of " + strings.Join(targets, ", ")}
+	case "stateless":
+		// stateless F   - F (with its closures) reads and writes no struct field and no package-level
+		// variable: its result can depend on its arguments only, and concurrent calls share nothing
+		who := strings.TrimSpace(rest)
+		exists := false
+		for _, fn := range fns {
+			if relName(fn) != who {
+				continue
+			}
+			exists = true
+			for _, b := range fn.Blocks {
+				for _, in := range b.Instrs {
+					switch v := in.(type) {
+					case *ssa.FieldAddr:
+						return structResult{name, false, fmt.Sprintf("%s accesses field %d of %s", who, v.Field, v.X.Type())}
+					case *ssa.Field:
+						return structResult{name, false, fmt.Sprintf("%s reads field %d of %s", who, v.Field, v.X.Type())}
+					}
+					for _, op := range in.Operands(nil) {
+						if g, ok := (*op).(*ssa.Global); ok {
+							return structResult{name, false, who + " uses package-level variable " + g.Name()}
+						}
+					}
+				}
+			}
+		}
+		if !exists {
+			return structResult{name, false, "function " + who + " not found"}
+		}
+		return structResult{name, true, who + " accesses no struct field and no package-level variable"}
 	case "const":
 		parts := strings.SplitN(rest, "==", 2)
 		if len(parts) != 2 {
